@@ -26,7 +26,7 @@ RULE = ('(a) explicit-state BFS, case = (terminal state, token); non-trivial = t
 ASSUMPTIONS = ['token alphabet as listed in bounds; screens up to 3x4; "randomly on larger screens" is sampling and deliberately not done',
                'the emulator appends to ./log on unknown sequences: the check runs in /verif/.scratch']
 STATES_MEANING = 'distinct terminal states (grid, cursor, saved cursor, scroll region, FSM state, parameter stack, decoder state), deduplicated, summed over screens; plus one per chunk-independence partition'
-REQUIRED_FLAGS = {'malformed_or_other_multibyte_encoding': 1, 'two_terminals_interleaved': 1, 'cut_inside_escape': 1, 'cut_inside_multibyte': 1, 'degenerate_param': 1, 'truncated_sequence': 1,
+REQUIRED_FLAGS = {'pieces_through_process_list': 1, 'malformed_or_other_multibyte_encoding': 1, 'two_terminals_interleaved': 1, 'cut_inside_escape': 1, 'cut_inside_multibyte': 1, 'degenerate_param': 1, 'truncated_sequence': 1,
                   'unknown_sequence': 1, 'scrolled': 1}
 
 ESC = '\x1b'
@@ -239,6 +239,16 @@ def path_to(parent, st):
     return h
 
 
+FEED = {'mode': 'write'}      # 'write': every piece through write(); 'alt': pieces alternately through process_list() and write()
+
+
+def feed(t, piece, i):
+    if FEED['mode'] == 'alt' and i % 2 == 0:
+        t.process_list(piece)        # documented as equivalent to write()
+    else:
+        t.write(piece)
+
+
 def chunk_check(term, path, maxcuts, acc, task, how, enc=None):
     """Feed ''.join(path) at once, then under every cut set; compare."""
     if how == 'raw':
@@ -279,8 +289,8 @@ def chunk_check(term, path, maxcuts, acc, task, how, enc=None):
             acc.transitions += 1
             prev = 0
             try:
-                for c in cuts + (n,):
-                    term.t.write(data[prev:c])
+                for i_, c in enumerate(cuts + (n,)):
+                    feed(term.t, data[prev:c], i_)
                     prev = c
                 got = term.snap()
             except Exception as e:
@@ -295,9 +305,9 @@ def chunk_check(term, path, maxcuts, acc, task, how, enc=None):
             if nt:
                 acc.nontrivial += 1
             if got != whole:
-                acc.violation('chunk:%s:differs' % how,
+                acc.violation('chunk:%s:differs%s' % (how, ':process_list' if FEED['mode'] == 'alt' else ''),
                               'input %r fed at once gives %r, cut at %r gives %r' % (data, whole, cuts, got),
-                              dict(task=task, path=path, how=how, enc=enc, cuts=list(cuts)))
+                              dict(task=task, path=path, how=how, enc=enc, cuts=list(cuts), feed=FEED['mode']))
                 return
     acc.outcomes['chunk:%s:same' % how] += 1
 
@@ -326,6 +336,16 @@ def run_chunk(task, acc):
 
 
 def run_chunk_bytes(task, acc):
+    for mode in ('write', 'alt'):
+        FEED['mode'] = mode
+        try:
+            _run_chunk_bytes(task, acc)
+        finally:
+            FEED['mode'] = 'write'
+        acc.flags['pieces_through_process_list'] += 1
+
+
+def _run_chunk_bytes(task, acc):
     rows, cols = task['rows'], task['cols']
     paths = [['\xe9', ESC + '[1;2H', '\xe9', 'a'], ['a', '\xe9', ESC + '[2J', '\xe9\xe9'],
              [ESC + '[2;1H', '\xe9', '\n', 'b'], ['\xe9' * 3, ESC + 'M', ESC + '[0;0r', '\n\n']]
@@ -489,9 +509,10 @@ def replay(spec):
         return out
     term.fresh()
     prev = 0
+    FEED['mode'] = spec.get('feed', 'write')
     try:
-        for c in list(spec['cuts']) + [len(data)]:
-            term.t.write(data[prev:c])
+        for i_, c in enumerate(list(spec['cuts']) + [len(data)]):
+            feed(term.t, data[prev:c], i_)
             prev = c
         got = term.snap()
     except Exception as e:
@@ -499,5 +520,7 @@ def replay(spec):
     out['whole'] = repr(whole)
     out['cut'] = repr(got)
     if got != whole:
-        out['violation'] = {'key': 'chunk:%s:differs' % spec['how'], 'msg': 'at once %r, cut %r' % (whole, got)}
+        out['violation'] = {'key': 'chunk:%s:differs%s' % (spec['how'], ':process_list' if FEED['mode'] == 'alt' else ''),
+                            'msg': 'at once %r, cut %r' % (whole, got)}
+    FEED['mode'] = 'write'
     return out
